@@ -370,8 +370,10 @@ def norm(e):
     N = norm
     NL = lambda l: [norm(x) for x in l]
     if t == 0: return [0]
-    if t == 1: return [1, 0, e[2], e[3], e[4], normns(e[5]) if e[2] else "", ""]
-    if t == 2: return [2, 0, e[2], e[3], e[4], normns(e[5]) if e[2] else "", N(e[6]), ""]
+    # a parameter is never "touched" (the checker tests !is_parameter() first): its mutability flag is irrelevant
+    # (the type checker may infer a `!` type for a defaulted parameter that is later passed to `!`)
+    if t == 1: return [1, 0, e[2] if not e[3] else 0, e[3], e[4], normns(e[5]) if (e[2] and not e[3]) else "", ""]
+    if t == 2: return [2, 0, e[2] if not e[3] else 0, e[3], e[4], normns(e[5]) if (e[2] and not e[3]) else "", N(e[6]), ""]
     if t == 3: return [3, 0, N(e[2]), e[3], e[4], e[5], e[6], NL(e[7]), NL(e[8]), NL(e[9]), NL(e[10])]
     if t == 4: return [4, 0, e[2], N(e[3]), N(e[4])]
     if t in (5, 19): return [t, N(e[1])]
